@@ -54,3 +54,26 @@ Proof. vm_compute. reflexivity. Qed.
 Definition U0 : st (A:=QcK) := mkSt (qc [[2;1;1];[0;3;1];[0;0;4]]%Z) (ident (NumK QcK) 3) (qcv [7;10;8]%Z).
 Lemma U0_wf : wf_st QcK 3 U0.
 Proof. repeat split; cbn; repeat constructor. Qed.
+
+(* ---- the NaN-aware carrier over Qc ---- *)
+Definition qisz (x : Qc) : bool := Qeq_bool (this x) 0.
+Lemma qisz_spec : forall x : QcK, qisz x = true <-> x = f0 QcK.
+Proof.
+  intros x. unfold qisz. split.
+  - intros H. apply Qeq_bool_iff in H. apply Qc_is_canon. exact H.
+  - intros ->. reflexivity.
+Qed.
+
+(* zero column, DenseFloat64-style path: error; identical rows, generic path: panic *)
+Lemma nan_aware_zero_column_exit :
+  gj_run (NumO QcK qisz) true false 2 (all_true 2)
+         (lst QcK (mkSt (qc [[0;1];[0;2]]%Z) (ident (NumK QcK) 2) (qcv [1;1]%Z))) = ErrSingular.
+Proof. vm_compute. reflexivity. Qed.
+Lemma nan_aware_identical_rows_exit :
+  gj_run (NumO QcK qisz) false false 3 (all_true 3)
+         (lst QcK (mkSt (qc [[1;2;3];[4;5;6];[1;2;3]]%Z) (ident (NumK QcK) 3) (qcv [1;1;1]%Z))) = PanicSingular.
+Proof. vm_compute. reflexivity. Qed.
+(* regular input: Ok on the NaN-aware carrier *)
+Lemma nan_aware_regular_ok :
+  exists s', gj_run (NumO QcK qisz) true false 3 (all_true 3) (lst QcK W0) = Ok s'.
+Proof. eexists. vm_compute. reflexivity. Qed.
